@@ -240,7 +240,11 @@ public:
      * TTL time.
      * @param ttl The new uniform TTL value to apply to all new elements.
      */
-    auto update_ttl(std::chrono::milliseconds ttl) -> void { m_ttl = ttl; }
+    auto update_ttl(std::chrono::milliseconds ttl) -> void
+    {
+        std::lock_guard guard{m_lock};
+        m_ttl = ttl;
+    }
 
     /**
      * Trims the TTL list of items an expunges all expired elements.  This could be useful to use
@@ -277,17 +281,29 @@ public:
     /**
      * @return If this cache is currenty empty.
      */
-    auto empty() const -> bool { return m_used_size == 0; }
+    auto empty() const -> bool
+    {
+        std::lock_guard guard{m_lock};
+        return m_used_size == 0;
+    }
 
     /**
      * @return The number of elements inside the cache.
      */
-    auto size() const -> size_t { return m_used_size; }
+    auto size() const -> size_t
+    {
+        std::lock_guard guard{m_lock};
+        return m_used_size;
+    }
 
     /**
      * @return The maximum capacity of this cache.
      */
-    auto capacity() const -> size_t { return m_elements.size(); }
+    auto capacity() const -> size_t
+    {
+        std::lock_guard guard{m_lock};
+        return m_elements.size();
+    }
 
 private:
     struct element
@@ -477,7 +493,7 @@ private:
     }
 
     /// Cache lock for all mutations.
-    mutex<thread_safe_type> m_lock;
+    mutable mutex<thread_safe_type> m_lock;
 
     /// The uniform TTL for every key value pair inserted into the cache.
     std::chrono::milliseconds m_ttl;
